@@ -29,6 +29,8 @@ def alphabet():
       "skip": Q.OpQuantizationConfig(weight_tensor_config=T(16, True), compute_precision=Q.ComputePrecision.INTEGER, skip_checks=True),
       "f16": Q.OpQuantizationConfig(weight_tensor_config=T(16, dtype=Q.TensorDataType.FLOAT), compute_precision=Q.ComputePrecision.FLOAT,
                                     explicit_dequantize=True),
+      # a stale block size next to a non-blockwise granularity ("ignored otherwise"): part of the config's identity all the same
+      "drqb": Q.OpQuantizationConfig(weight_tensor_config=T(8, True, Q.QuantGranularity.CHANNELWISE, block_size=32), compute_precision=Q.ComputePrecision.INTEGER),
       "dflt": None,
   }
   regexes = {"r1": ".*", "r2": "model/a", "r3": "add1"}
@@ -36,7 +38,7 @@ def alphabet():
   opsels = ["*", "FULLY_CONNECTED", "ADD"]
   queryops = ["FULLY_CONNECTED", "ADD"]
   cfgalgs = [("srq", "minmax"), ("drq", "minmax"), ("bad", "minmax"), ("dflt", "minmax"), ("f16", "fcast"), ("skip", "minmax"),
-             ("dflt", "noq"), ("srq", "noq")]
+             ("dflt", "noq"), ("srq", "noq"), ("drqb", "minmax")]
   lists = [
       [("r1", "*", ("srq", "minmax"))],
       [("r2", "FULLY_CONNECTED", ("drq", "minmax")), ("r2", "FULLY_CONNECTED", ("srq", "minmax")), ("r3", "ADD", ("srq", "minmax"))],   # same op twice: replaced in place
